@@ -549,6 +549,40 @@ pub fn run(session: &Session) -> i32 {
         cases.push(json!({"src": "constant-failure", "text": p}));
     }
     {
+        // operands whose type shrinks to `!` between checking and folding: `if true { k() } else { V }`
+        // has the type `!|T` for the checker, and the folding pass keeps only the `!` branch
+        use crate::genr::matrix::{CATALOGUE, UNARY};
+        let never = "k := () -> ! { return k(); }; ";
+        for x in CATALOGUE {
+            let Some(v) = x.values.first() else { continue };
+            for (k, t) in UNARY.iter().enumerate() {
+                let body = t.replace('X', "x");
+                let decl = match k % 3 {
+                    0 => format!("x := if true {{ k() }} else {{ {v} }}"),
+                    1 => format!("x := if false {{ {v} }} else {{ k() }}"),
+                    _ => format!("x := match 1 {{ 1 => k(), => {v}, }}"),
+                };
+                cases.push(json!({"src": "never-after-folding", "text": format!("{never}{decl}; {body}")}));
+                if k % 4 == 0 {
+                    cases.push(json!({"src": "never-after-folding", "text": format!("{never}f := () -> any {{ {decl}; {body}; return 0; }}")}));
+                }
+            }
+            // as either operand of every infix operator and two-operand template
+            for y in ["1", "2.5", "\"s\"", "true", "[1]", "mut 1", "(n: int) -> int { return n; }", "[1, 2]~", "(1, 2)", "struct{a := 1}"] {
+                for op in crate::genr::matrix::INFIX {
+                    cases.push(json!({"src": "never-after-folding", "text": format!("{never}x := if true {{ k() }} else {{ {v} }}; y := {y}; x {op} y")}));
+                    cases.push(json!({"src": "never-after-folding", "text": format!("{never}x := if true {{ k() }} else {{ {v} }}; y := {y}; y {op} x")}));
+                }
+                for t in crate::genr::matrix::BINARY {
+                    let body = t.replace('X', "x").replace('Y', "y");
+                    cases.push(json!({"src": "never-after-folding", "text": format!("{never}x := if true {{ k() }} else {{ {v} }}; y := {y}; {body}")}));
+                    let body = t.replace('X', "y").replace('Y', "x");
+                    cases.push(json!({"src": "never-after-folding", "text": format!("{never}x := if true {{ k() }} else {{ {v} }}; y := {y}; {body}")}));
+                }
+            }
+        }
+    }
+    {
         // the matrix once more with operands that are constants of a union static type
         // (`[v1, v2][k]` has the union of the element types and folds to one element): the checker
         // judges the union, the folding pass then applies the operator to the element
@@ -632,7 +666,7 @@ pub fn run(session: &Session) -> i32 {
         session.run_tapes(&C03, session.tier.of(60_000, 3_000_000), 400, 0);
     }
     let code = session.finish(
-        "(constant-folding: every pair of the i64 and f64 boundary grids under every foldable operator, and boundary ints in index, slice, length and propagated-binding positions) inputs fed to Code::parse (against an interpreter with stdlib and bound names, and against an empty one), Code::return_type, Error::to_string, Variable::from_str and Type::from_str: every sequence of 1-2 tokens (quick; 1-3 thorough) over a 138-token alphabet (all keywords, every operator, brackets, literal samples incl. a too-big int, bound and unbound identifiers, composite fragments) plus unfinished-construct prefixes x token x closer, random token sequences up to length 16/24, random derivations of the project's own pest grammar read at run time (start rules input/line/stm/expr/function/match/type/only_var/slicing; identifiers mapped onto bound names), token-level mutations (delete/duplicate/swap/replace/insert) of the README, docs and example scripts, the operator x operand-type matrix (every unary/postfix/statement template, every infix and assignment operator and 28 two-operand templates applied to parameters of 60 types incl. `!`, `any` and unions of arrays, tuples, structs, muts, functions and iterators), the same matrix over operands that are constants of a union static type (`[v1, v2][k]`: every unary template x every catalogue value, every infix operator x all pairs of values of 30 scalar / union / any operand types), tape-generated typed programs of six profiles as they are and with token-level edits, a catalogue of names rebound from their own old (non-constant) value to a value of another type in every kind of body, 18 binding constructs x uses of the bound name after the construct, 33 spellings of integer literals in 30 positions, 10 always-failing constant operations in 28 syntactic positions, and imports of 13 file states (missing, directory, syntax error, type error, folding error, non-UTF-8, nested, empty, top-level return/break) in 11 positions. Oracle: no panic. Non-trivial = the text passes the grammar (reaches instruction construction); distinct by text.",
+        "(constant-folding: every pair of the i64 and f64 boundary grids under every foldable operator, and boundary ints in index, slice, length and propagated-binding positions) inputs fed to Code::parse (against an interpreter with stdlib and bound names, and against an empty one), Code::return_type, Error::to_string, Variable::from_str and Type::from_str: every sequence of 1-2 tokens (quick; 1-3 thorough) over a 138-token alphabet (all keywords, every operator, brackets, literal samples incl. a too-big int, bound and unbound identifiers, composite fragments) plus unfinished-construct prefixes x token x closer, random token sequences up to length 16/24, random derivations of the project's own pest grammar read at run time (start rules input/line/stm/expr/function/match/type/only_var/slicing; identifiers mapped onto bound names), token-level mutations (delete/duplicate/swap/replace/insert) of the README, docs and example scripts, the operator x operand-type matrix (every unary/postfix/statement template, every infix and assignment operator and 28 two-operand templates applied to parameters of 60 types incl. `!`, `any` and unions of arrays, tuples, structs, muts, functions and iterators), the same matrix over operands that are constants of a union static type and over operands whose type shrinks to `!` when a constant condition is folded away (`[v1, v2][k]`: every unary template x every catalogue value, every infix operator x all pairs of values of 30 scalar / union / any operand types), tape-generated typed programs of six profiles as they are and with token-level edits, a catalogue of names rebound from their own old (non-constant) value to a value of another type in every kind of body, 18 binding constructs x uses of the bound name after the construct, 33 spellings of integer literals in 30 positions, 10 always-failing constant operations in 28 syntactic positions, and imports of 13 file states (missing, directory, syntax error, type error, folding error, non-UTF-8, nested, empty, top-level return/break) in 11 positions. Oracle: no panic. Non-trivial = the text passes the grammar (reaches instruction construction); distinct by text.",
         false,
         &["inputs nested deeper than 40 brackets and imports outside the scratch directory are discarded and counted",
           "the working directory of the check process is a scratch directory"],
